@@ -108,6 +108,9 @@ pub fn tamper_all(ctx: &mut Ctx, base: &str, tx: &Transaction, spent: &[TxOut], 
             let mut sb = t.output[i].script_pubkey.to_bytes();
             if sb.is_empty() {
                 sb.push(0x51);
+            } else if ctx.rng.gen_range(0..3) == 0 {
+                // the empty script (what a fee output carries)
+                sb.clear();
             } else {
                 let k = ctx.rng.gen_range(0..sb.len());
                 sb[k] ^= 1 << ctx.rng.gen_range(0..8);
@@ -325,6 +328,8 @@ fn explicit_case(r: &mut Rg, k: u64) -> ExplicitCase {
                 1 => Script::from(vec![0x6a]),
                 _ => Script::from(vec![0x51; 10_001]),
             };
+            // (the empty script is also "unspendable", but a zero-value explicit output on it is a
+            // fee output and takes another path; it is covered by the fee cases)
             assert!(rscript::is_provably_unspendable(unspendable.as_bytes()));
             let a = *gen::pick(r, &assets);
             let pos = r.gen_range(0..=outputs.len());
@@ -335,9 +340,16 @@ fn explicit_case(r: &mut Rg, k: u64) -> ExplicitCase {
             // zero-value output on a spendable script: not admissible
             let a = *gen::pick(r, &assets);
             let pos = r.gen_range(0..=outputs.len());
-            outputs.insert(pos, TxOut { asset: Asset::Explicit(a), value: Value::Explicit(0), nonce: Nonce::Null, script_pubkey: blind::address_script(r), witness: Default::default() });
+            // ordinary scripts, and scripts just at the size limit (longer ones are unspendable)
+            let (script, w) = match r.gen_range(0..4) {
+                0 => (Script::from(vec![0x51; 10_000]), "zero-value-on-spendable-script/len10000"),
+                1 => (Script::from(vec![0x51; 9_999]), "zero-value-on-spendable-script/len9999"),
+                _ => (blind::address_script(r), "zero-value-on-spendable-script"),
+            };
+            assert!(!rscript::is_provably_unspendable(script.as_bytes()));
+            outputs.insert(pos, TxOut { asset: Asset::Explicit(a), value: Value::Explicit(0), nonce: Nonce::Null, script_pubkey: script, witness: Default::default() });
             expect_ok = false;
-            why = "zero-value-on-spendable-script".into();
+            why = w.into();
         }
         5 => {
             // move one unit between two assets' outputs (per-asset imbalance, total preserved)
